@@ -187,12 +187,44 @@ def exec_bad(cs, obs, done, rec, quiet):
     return out
 
 
+def backlog_cancel_part(ctx, rp):
+    """cancel requests for tasks the scheduler holds back for a raptor master that has not registered yet (driven as in
+    props/c20.py): a named task is reported CANCELED and never handed to a master afterwards; the others stay"""
+    from props import c20
+    rng = ctx.rng
+    n = 0
+    for _ in range(ctx.n(150, 3000)):
+        nt = rng.randint(2, 6)
+        keys = [rng.choice([1, 2, None]) for _ in range(nt)]
+        incoming = ['incoming', [[k, [u for u in range(nt) if keys[u] == k]] for k in sorted(set(keys), key=lambda x: (x is None, x))]]
+        named = rng.sample(range(nt), rng.randint(1, nt))
+        if rng.random() < 0.4:
+            # ... all tasks held for one of the masters (a cancel-all while raptor is still starting)
+            k0 = rng.choice(keys); named = [u for u in range(nt) if keys[u] == k0]
+        ops = [incoming, ['cancel', named]] + [['register', m] for m in (1, 2) if rng.random() < 0.7]
+        r = c20.run_fwd(rp, ops)
+        n += 1
+        ctx.case({'backlog_cancel': ops}, nontrivial=True)
+        inp = {'kind': 'backlog_cancel', 'ops': ops, 'n': nt}
+        delivered = [t for q, t in r['delivered']]
+        if r['errors']:
+            ctx.fail('raptor-backlog:cancel-request-raises', 'cancel of %s among the held tasks %s: %s; canceled %s, handed to a master later %s'
+                     % (named, incoming[1], r['errors'], r['canceled'], delivered), inp)
+        elif sorted(r['canceled']) != sorted(named):
+            ctx.fail('raptor-backlog:named-task-not-canceled', 'cancel of %s: reported CANCELED %s' % (named, r['canceled']), inp)
+        elif any(t in delivered for t in named):
+            ctx.fail('raptor-backlog:canceled-task-handed-to-a-master', 'cancel of %s, handed on afterwards: %s' % (named, delivered), inp)
+    ctx.obligation('cancel requests for tasks held back for raptor masters: named tasks CANCELED once and never handed on, others untouched '
+                   '(%d histories)' % n, 'tie', True, '')
+
+
 def run(ctx):
     rp  = rpload.load()
     rng = ctx.rng
 
     # -- (0) the client-side request ------------------------------------------------------
     request_cases(rp, ctx)
+    backlog_cancel_part(ctx, rp)
 
     # -- (a) intake filter ------------------------------------------------------------
     ops, impl = [], []
@@ -273,6 +305,12 @@ def replay(ctx, data):
         # (the clause the input was recorded for, if it says so; every clause otherwise)
         sig = str(data.get('signature') or '')
         return sig not in bad if sig in ('named-task-processed-after-cancel', 'bystander-dropped-by-cancel') else not bad
+    if i['kind'] == 'backlog_cancel':
+        from props import c20
+        r = c20.run_fwd(rp, i['ops'])
+        named = i['ops'][1][1]
+        print(r)
+        return not r['errors'] and sorted(r['canceled']) == sorted(named) and not any(t in named for q, t in r['delivered'])
     if i['kind'] == 'request':
         got = run_request(rp, [tuple(k) for k in i['known']], i['arg'], i['via_task'])
         named = set(i['arg'] if isinstance(i['arg'], list) else [i['arg']])
